@@ -993,6 +993,62 @@ def rule_max_clique_templates(F, R):
         R.violation('max_clique_gen::main / L / unexpected template %s' % ' '.join(k), 'L', 'emitted text %r tokenises to %s, which is not part of the reference skeleton of the clique formula' % (got[k][0][0], ' '.join(k)), got[k][0][1])
     R.sample({'rule': 'L templates', 'pieces': {' '.join(k): v[0][0] for k, v in got.items()}})
 
+def rule_comment_holes(F, R, crate_name):
+    """a remark in the emitted formula is the text between two double quotes: whatever a generator formats into a remark must not be able to
+    contain a double quote (it would end the remark early and turn the rest of the line into formula text).  Holes inside a remark may show
+    integers, string constants, or text from which the quote character has been removed."""
+    import engine_u
+    c = F.crate(crate_name)
+    if c is None:
+        R.violation('%s / L / anchor' % crate_name, 'UNDECIDABLE', 'crate not found'); return
+    n = 0
+    for name, t in sorted(c.ithir.items()):
+        if '<Args as clap::' in name or '@inl' in name: continue
+        lets = {}
+        for b in walk(t['body']):
+            if b['k'] == 'Block':
+                for st in b['stmts']:
+                    if st['k'] == 'Let' and st.get('init') is not None and (st['init'].get('exp') is None or strip(st['init'])['k'] == 'Literal'):
+                        q = unwrap_pat(st['pat'])
+                        if q['k'] == 'Binding' and not q.get('mutable'): lets[q['var']] = st['init']          # includes `let version = env!("CARGO_PKG_VERSION");`
+        def quote_free(e, depth=0):
+            e = strip(e)
+            ty = e.get('ty', {})
+            while ty.get('k') == 'Ref': ty = ty['to']
+            if ty.get('k') in ('Uint', 'Int', 'Bool'): return True
+            if e['k'] == 'Literal' and e.get('lit') == 'Str': return '"' not in e['value']
+            if e['k'] in ('VarRef', 'UpvarRef') and e['var'] in lets and depth < 4: return quote_free(lets[e['var']], depth + 1)
+            if e['k'] == 'Call' and (callee_name(e) or '').split('::')[-1] == 'replace' and len(e['args']) == 3:
+                pat, rep = strip(e['args'][1]), strip(e['args'][2])
+                pv = pat.get('value') if pat['k'] == 'Literal' else None
+                return pv in ('"', 34, '34') and rep['k'] == 'Literal' and rep.get('lit') == 'Str' and '"' not in rep['value']
+            return False
+        for e in walk(t['body']):
+            if not (e['k'] == 'Call' and (callee_name(e) or '').endswith('write_fmt')): continue
+            tm = [y for y in walk(e) if y['k'] == 'Literal' and y.get('lit') == 'ByteStr']
+            if not tm: continue
+            try: text = engine_u.decode_template(tm[0]['value'])
+            except Exception: continue
+            if '"' not in text or '{}' not in text: continue
+            args = None
+            for b in walk(e):
+                if b['k'] == 'Block' and 'format_args' in str(b.get('exp')) and b['stmts']:
+                    for st in b['stmts']:
+                        if st['k'] == 'Let' and st.get('init') is not None and strip(st['init'])['k'] == 'Tuple' and args is None: args = strip(st['init'])['fields']
+            parts = text.split('{}')
+            if args is None or len(parts) != len(args) + 1: continue
+            inside = False
+            for piece, a in zip(parts[:-1], args):
+                if piece.count('"') % 2 == 1: inside = not inside
+                if not inside: continue
+                n += 1
+                ok = quote_free(a)
+                R.count('L:remark-holes'); R.obligation(ok, 'L remark hole %s %s' % (name, e['loc']))
+                if not ok:
+                    R.violation('%s / L / text formatted into a remark' % name.split('::{closure')[0], 'L',
+                                'the remark `%s` shows %s, which can contain a double quote: the remark would end there and the rest be read as formula text' % (text.strip()[:60], pp(a)[:40]), e['loc'])
+    return n
+
 def written_text(call):
     """(text, remaining arguments) of one `write!`/`writeln!`: the template with every hole whose argument is a string literal filled
     in (`writeln!(w, "{} G {{", keyword)` of an inlined helper called with "graph" is `graph G {`); a write without holes is its text"""
